@@ -169,6 +169,18 @@ func genScenario(r *rand.Rand, idx int, scheduleHeavy bool) Scenario {
 			for j := 0; j < k; j++ {
 				f.Parts = append(f.Parts, genOutcome(r, sc.Targets, &next, pDrop+0.1, pSplit))
 			}
+			// two parts of one multipolygon may snap to the very same polygon on a (coarse) tile matrix: the target still
+			// receives every computed polygon, also the identical ones
+			if k >= 2 && r.Intn(4) == 0 {
+				a, b := r.Intn(k), r.Intn(k)
+				if a != b {
+					for key, ids := range f.Parts[a] {
+						if len(ids) > 0 && len(f.Parts[b][key]) > 0 && r.Intn(2) == 0 {
+							f.Parts[b][key][0] = ids[0]
+						}
+					}
+				}
+			}
 		default:
 			f.Kind = otherKinds[r.Intn(len(otherKinds))]
 		}
